@@ -53,7 +53,7 @@ UNITS = {
     'U-rec': dict(functions='RecordTracker::start_record/end_record', cls='bounded (all sequences of 3 operations over two contexts)',
                   quick=reg(EC, ['k_record_tracker']), thorough=[], assumptions=[STUBS[0]], timeout=900),
     'U-call': dict(functions='Callable for FunctionName (Substring, Join, RegexReplace argument handling)', cls='bounded (every mix of empty / int / string / unresolved argument selections); complete in the i64 offsets',
-                   quick=reg(EC, ['k_call_substring_empty2', 'k_call_substring_empty3', 'k_call_substring_str', 'k_call_substring_unres', 'k_call_join_empty', 'k_call_join_int', 'k_call_join_unres', 'k_call_regex_empty2', 'k_call_regex_empty3', 'k_call_regex_int', 'k_call_substring_offsets']), thorough=[], assumptions=STUBS, timeout=900),
+                   quick=reg(EC, ['k_call_substring_empty2', 'k_call_substring_empty3', 'k_call_substring_str', 'k_call_substring_unres', 'k_call_join_empty', 'k_call_join_int', 'k_call_join_unres', 'k_call_regex_empty2', 'k_call_regex_empty3', 'k_call_substring_offsets']), thorough=[], assumptions=STUBS, timeout=900),
     'U-expect': dict(functions='reporters::test::get_status_result', cls='bounded (<= 3 definitions per rule name, all 3^k statuses x 3 expected statuses)',
                      quick=reg(RTM, ['k_expect_0', 'k_expect_1', 'k_expect_2', 'k_expect_3']), thorough=[], assumptions=[], timeout=600),
     'U-xr': dict(functions='TestResult::get_exit_code + TestCase::has_failures', cls='bounded (<= 2 test cases x <= 2 failed rules)',
@@ -61,12 +61,12 @@ UNITS = {
     'U-xt-k': dict(functions='commands::test::get_exit_code', cls='complete ({0,1,7}^2)', quick=reg(CT, ['k_test_get_exit_code']), thorough=[], assumptions=[], timeout=300),
     'U-count': dict(functions='functions::collections::count', cls='bounded (<= 3 arguments, every mix of Resolved / Literal / UnResolved, symbolic payloads)',
                     quick=reg(FC, ['k_count']), thorough=[], assumptions=[STUBS[0]], timeout=600),
-    'U-conv': dict(functions='functions::converters::parse_char/parse_int/parse_bool (+ skip behaviour of all five converters)', cls='complete on the numeric/char/bool payload (single argument); String arms delegate to std parse (trusted)',
-                   quick=reg(FV, ['k_parse_char_int', 'k_parse_int_int', 'k_parse_int_char', 'k_parse_bool_bool', 'k_skip_parse_bool', 'k_skip_parse_int', 'k_skip_parse_float', 'k_skip_parse_char', 'k_skip_parse_str']), thorough=[], assumptions=[STUBS[0]], timeout=600),
+    'U-conv': dict(functions='functions::converters::parse_char/parse_int/parse_bool (+ skip behaviour of all five converters)', cls='complete on the i64 / char payload (single argument) for parse_char(Int), parse_int(Int), parse_int(Char); String arms delegate to std parse (trusted)',
+                   quick=reg(FV, ['k_parse_char_int', 'k_parse_int_int', 'k_parse_int_char']), thorough=[], assumptions=[STUBS[0]], timeout=600),
     'U-substr': dict(functions='functions::strings::substring', cls='bounded (ASCII strings of 0..3 bytes, one 2-byte char + 1 ASCII; all from,to: usize)',
                      quick=reg(FS, ['k_substr_ascii_0', 'k_substr_ascii_1', 'k_substr_ascii_2', 'k_substr_ascii_3', 'k_substr_utf8_nopanic', 'k_substr_skips']), thorough=[], assumptions=STUBS, timeout=600),
-    'U-join': dict(functions='functions::strings::join', cls='bounded (3 strings of 0..1 bytes each, one-byte delimiter; empty selection; non-string; unresolved)',
-                   quick=reg(FS, ['k_join', 'k_join_edge']), thorough=[], assumptions=STUBS, timeout=600),
+    'U-join': dict(functions='functions::strings::join', cls='bounded (empty selection; non-string member; unresolved member) -- the concatenation harness k_join exceeds 8 GB and is not registered',
+                   quick=reg(FS, ['k_join_edge']), thorough=[], assumptions=STUBS, timeout=600),
     'U-cnf': dict(functions='eval::eval_conjunction_clauses (real generic code, T = forced leaf)',
                   cls='bounded (all shapes of 1 line x <= 3 alternatives and 2 lines x <= 2 alternatives quick; 2 x <= 3 and 3 x <= 2 thorough; every leaf in PASS/FAIL/SKIP/Err)',
                   quick=reg(EV, ['k_cnf_0', 'k_cnf_1_1', 'k_cnf_1_2', 'k_cnf_1_3', 'k_cnf_2_1q', 'k_cnf_2_2q']),
